@@ -21,6 +21,9 @@ CHECKS = {
  "C06": ("model_checking", "explicit-state BFS of the real DB to a fixpoint, raw key-space audit against a canonical rebuild",
          "all reachable states of three alphabets; in each the raw key set equals that of a database freshly built with the same logical content, Count equals the number of documents, every index answers like a scan",
          "states are raw store contents (DESIGN 3.5); layout-agnostic audit (DESIGN 3.5a)"),
+ "C07": ("model_checking", "stateless exploration of every schedule of the real DB under a cooperative scheduler (preemption-bounded DFS) + linearizability check (porcupine)",
+         "every interleaving of 2-3 goroutines in 16 colliding scenarios on both backends at operation/commit granularity (unbounded), at every store call with <= 2 preemptions (thorough); each history must be linearizable w.r.t. the reference model and leave a consistent raw state",
+         "isolation of uncommitted work by the stores justifies the reduced point set (defended by the every-call mode); data races are left to a separate sampling -race pass; the badger+index write skew is a recorded known finding"),
  "C08": ("exploration", "exhaustive sort-option x skip/limit grid on index twins of the real DB against the reference order",
          "every sort list / direction / window / criteria combination of the grid: returned sort-key tuples equal the reference window",
          "13-document dataset; tie order among equal keys is not compared"),
@@ -88,6 +91,7 @@ def main():
             {"name": "querysweep", "path": "eng/querysweep.go", "serves_properties": ["C01", "C02", "C08"], "kind_free_text": "exhaustive criteria x sort x window x index-twin sweep on the real DB"},
             {"name": "statespace", "path": "eng/statespace.go", "serves_properties": ["C01", "C06", "C09", "C12", "C13", "C14", "C15"], "kind_free_text": "explicit-state breadth-first search over the real DB with raw-state de-duplication and lock-step backend twins"},
             {"name": "bulksweep", "path": "eng/bulksweep.go", "serves_properties": ["C03"], "kind_free_text": "every collection size x index set x bulk op"},
+            {"name": "sched", "path": "eng/sched.go", "serves_properties": ["C07"], "kind_free_text": "cooperative scheduler over store calls, DFS over choice sequences with preemption bound, porcupine linearizability oracle"},
             {"name": "faultenum", "path": "eng/faultenum.go", "serves_properties": ["C04"], "kind_free_text": "every k-th store call failing, per operation x pre-state x backend"},
             {"name": "hostile", "path": "eng/hostile.go", "serves_properties": ["C20"], "kind_free_text": "every public call x situation x hostile criteria"},
             {"name": "jsonsweep", "path": "eng/jsonsweep.go", "serves_properties": ["C19"], "kind_free_text": "all small collections over a JSON grammar through export/import"},
